@@ -79,7 +79,7 @@ pub struct Facts {
 pub fn check_code(code: &[u8]) -> Result<Option<Facts>, Verdict> {
     let x = explore(code, false, &Limits::default());
     if x.capped || x.loops {
-        return Ok(None);
+        return check_looping(code);
     }
     // symbolic JUMP targets are ended silently by the tool; not required to be an error in strict mode
     let required: BTreeSet<(&'static str, u32)> = x
@@ -196,6 +196,63 @@ pub fn check_code(code: &[u8]) -> Result<Option<Facts>, Verdict> {
     }))
 }
 
+/// Programs with loops: the reference unrolls every loop so that no instruction is visited more than twice on a
+/// path; every error event it meets must be listed by strict mode (the tool's iteration limit of 10 lies well
+/// beyond that), and permissive mode must not fail on a jump-target error.
+pub fn check_looping(code: &[u8]) -> Result<Option<Facts>, Verdict> {
+    let lim = Limits {
+        max_paths: 512,
+        max_steps_per_path: 1024,
+        max_visits: 2,
+    };
+    let x = explore(code, false, &lim);
+    if x.paths.len() >= lim.max_paths {
+        return Ok(None);
+    }
+    let required: BTreeSet<(&'static str, u32)> = x
+        .events
+        .iter()
+        .filter(|e| !(e.kind == ErrKind::JumpSymbolic))
+        .map(|e| (class_of_ref(&e.kind), e.offset))
+        .collect();
+    let strict = match run_vm(code, cfg(false, None), lazy()) {
+        VmRun::Ran(o) => o,
+        _ => return Ok(None),
+    };
+    let got: BTreeSet<(&'static str, u32)> = strict.errors.iter().map(|(k, l)| (class_of_impl(k), *l)).collect();
+    for r in &required {
+        if !got.contains(r) {
+            return Err(Verdict {
+                key: format!("strict:missing-in-loop:{}", r.0),
+                what: format!(
+                    "on a path that visits no instruction more than twice the EVM raises a {} error at offset {} but strict mode reports {:?}",
+                    r.0, r.1, strict.errors
+                ),
+            });
+        }
+    }
+    if !required.is_empty() && strict.exec_ok {
+        return Err(Verdict {
+            key: "strict:ok-despite-errors-in-loop".into(),
+            what: format!("strict execution succeeded although {required:?} are raised inside a loop"),
+        });
+    }
+    let perm = match run_vm(code, cfg(true, None), lazy()) {
+        VmRun::Ran(o) => o,
+        _ => return Ok(None),
+    };
+    if let Some((k, l)) = perm.errors.iter().find(|(k, _)| class_of_impl(k) == "jump") {
+        return Err(Verdict {
+            key: format!("permissive:fails-on-jump:{k}"),
+            what: format!("permissive execution fails with the jump-target error {k} at offset {l}"),
+        });
+    }
+    Ok(Some(Facts {
+        predicted: x.events.len(),
+        predicted_non_jump: x.events.iter().filter(|e| class_of_ref(&e.kind) != "jump").count(),
+    }))
+}
+
 /// Gas family: cumulative minimum gas along some reference path exceeds the limit => both modes must fail with
 /// a gas error located inside the code.
 pub fn check_gas(code: &[u8], limit: usize) -> Result<Option<bool>, Verdict> {
@@ -270,6 +327,10 @@ impl Check for C17 {
         let alpha = alphabet();
         let n = alpha.len();
         if chunk == seq_chunks(n) {
+            // loops whose JUMPI target drifts from visit to visit
+            for code in crate::c08::drifting_target_programs() {
+                run_one(ctx, "drifting_target_loops", &code, "drifting-target loop");
+            }
             // stack overflow family: 1024 or 1025 pushes, then every sequence of <= 2 tokens
             for pushes in [1023usize, 1024, 1025] {
                 let prefix: Vec<u8> = vec![0x5f; pushes];
@@ -318,7 +379,8 @@ impl Check for C17 {
             total.get("validated"),
             &format!(
                 "all token sequences of length <= {} over {} tokens (stack-underflowing POP/ADD/DUP16/SWAP16, JUMP and JUMPI to valid, \
-                 in-push-data, non-JUMPDEST, out-of-range, >=2^32 and symbolic targets, halting instructions), a 1023/1024/1025 x PUSH0 \
+                 in-push-data, non-JUMPDEST, out-of-range, >=2^32 and symbolic targets, halting instructions), 2 048 loops whose JUMPI target \
+                 advances on every iteration (bounded unrolling in the reference), a 1023/1024/1025 x PUSH0 \
                  prefix family for stack overflow, and a gas-limit-{} family on sequences <= 3. For every loop-free program the \
                  reference EVM predicts the error events (class, offset) of all forced-branch paths; strict mode must fail and list \
                  each of them inside the code, permissive mode must fail iff a non-jump event exists, and strict success implies an \
@@ -336,7 +398,7 @@ impl Check for C17 {
     }
     fn assumptions(&self, _tier: Tier) -> Vec<String> {
         vec![
-            "reference EVM predicts error events; programs with loops are skipped".into(),
+            "reference EVM predicts error events; for programs with loops only the events on paths that visit no instruction more than twice are demanded (strict direction only)".into(),
             "a JUMP (not JUMPI) to a non-constant target is ended silently by the tool: not required to be an error in strict mode, only required not to fail in permissive mode".into(),
             "multiplicity and order of error payloads and the exact variant within a class (stack-under, stack-over, jump, gas) are don't-cares".into(),
         ]
